@@ -30,6 +30,9 @@ structure Target where
       `Rows()` interleave the rows of its members while its column chunks, hence its pages, list the
       members one after the other -/
   interleaved : Bool := false
+  /-- merge_refine.go `rowGroupDropsRows`: the row group is (or wraps) a deduplicating view, whose
+      `Rows()` leave out rows that its column chunks hold -/
+  dropsRows : Bool := false
 deriving Inhabited
 
 /-- position of a first-column value in sort order -/
@@ -131,12 +134,13 @@ def searchFirst {β : Type} (f : β → Bool) : List β → Nat
     index of the same length and no null page. `strict = false` is the code as it is (only pages that
     are entirely null are refused); `strict = true` also refuses pages that hold some nulls
     (proposed_fixes/C09_cut_lookups_nulls.diff). An interleaved row group has no lookups: they search
-    the pages and turn them into row positions, both of which need the pages in row order. -/
+    the pages and turn them into row positions, both of which need the pages in row order; neither
+    has a deduplicating view: the row positions of the offset index count the rows of the chunks. -/
 def hasCuts (strict : Bool) (t : Target) : Bool :=
   match t.cols with
   | [] => false
   | pages :: _ => !pages.isEmpty && pages.length == t.firstRows.length &&
-      !pages.any (fun p => p.nullPage || (strict && p.hasNulls)) && !t.interleaved
+      !pages.any (fun p => p.nullPage || (strict && p.hasNulls)) && !t.interleaved && !t.dropsRows
 
 def pageEnd (t : Target) (p : Nat) : Nat :=
   if p + 1 < t.firstRows.length then t.firstRows.getD (p + 1) 0 else t.numRows
